@@ -311,6 +311,7 @@ func (p *Path) raceCheck(knownID string, specs [][3]string) {
 		st.Proved++
 	}
 	p.X.mu.Unlock()
+	p.atomicityCheck(specs)
 	// lock order: two threads that take the same two mutexes in opposite order can deadlock
 	for _, x := range rs.order {
 		for _, y := range rs.order {
@@ -392,6 +393,164 @@ func (p *Path) raceQuery(a, b accEvent) bool {
 	if res == "unknown" {
 		p.X.mu.Lock()
 		p.X.res.Notes["schedule query undecided (treated as racy)"]++
+		p.X.mu.Unlock()
+	}
+	return res != "unsat"
+}
+
+
+// atomicityCheck: the effects of one API call on the index store and on the drive must appear at once. For every two
+// writes w1, w2 (program order) that one call makes to such a resource and every access y another thread makes to
+// it, the solver is asked for a schedule with w1 < y < w2: integer timestamps, every access inside its critical
+// sections, one acquire/release pair per critical section instance, sections on the same mutex disjoint. sat = the
+// other call can observe (or overwrite) a state in which only part of the first call's effects exist.
+func (p *Path) atomicityCheck(specs [][3]string) {
+	rs := p.race()
+	pseudo := map[string]bool{"IndexStore.rows": true, "Drive.tape": true}
+	byThread := map[int][]accEvent{}
+	for _, e := range rs.events {
+		if pseudo[e.loc] {
+			byThread[e.thread] = append(byThread[e.thread], e)
+		}
+	}
+	cache := map[string]bool{}
+	reported := map[string]bool{}
+	queries, triples := 0, 0
+	ids := func(cs []csection) string {
+		var xs []string
+		for _, c := range cs {
+			xs = append(xs, fmt.Sprintf("%s#%d", c.lock, c.id))
+		}
+		return strings.Join(xs, ",")
+	}
+	for ta, evs := range byThread {
+		for i := 0; i < len(evs); i++ {
+			for j := i + 1; j < len(evs); j++ {
+				w1, w2 := evs[i], evs[j]
+				if !w1.write || !w2.write || w1.loc != w2.loc || w1.api != w2.api || w1.api == "" {
+					continue
+				}
+				if ids(w1.held) == ids(w2.held) && len(w1.held) > 0 {
+					continue // same critical sections: nothing can come in between
+				}
+				for tb, other := range byThread {
+					if tb == ta {
+						continue
+					}
+					for _, y := range other {
+						if y.loc != w1.loc || rs.ordered(w1, y) || rs.ordered(y, w2) {
+							continue
+						}
+						triples++
+						key := ids(w1.held) + "|" + ids(w2.held) + "|" + csSig(y.held)
+						bad, ok := cache[key]
+						if !ok {
+							bad = p.betweenQuery(w1, w2, y)
+							cache[key] = bad
+							queries++
+						}
+						if !bad {
+							continue
+						}
+						rk := w1.loc + "|" + w1.api + "|" + y.api
+						if reported[rk] {
+							continue
+						}
+						reported[rk] = true
+						p.note(fmt.Sprintf("call not atomic: %s writes %s in two critical sections (%s, then %s); thread %d (%s) can access it in between", w1.api, w1.loc, w1.site, w2.site, y.thread, y.api))
+						saved := p.known
+						for _, sp := range specs {
+							if sp[1] == w1.loc && (strings.Contains(w1.api, sp[2]) || strings.Contains(y.api, sp[2])) && p.X.Known[sp[0]] {
+								p.known = sp[0]
+							}
+						}
+						p.raceViolation("C11.call_effects_are_atomic")
+						p.known = saved
+					}
+				}
+			}
+		}
+	}
+	p.X.mu.Lock()
+	p.X.res.Notes["write/write/access triples examined for atomicity"] += triples
+	p.X.res.Notes["schedule queries (timestamps) discharged"] += queries
+	st := p.X.res.Asserts["C11.call_effects_are_atomic"]
+	if st == nil {
+		st = &AssertStat{}
+		p.X.res.Asserts["C11.call_effects_are_atomic"] = st
+	}
+	st.Checked++
+	st.Reachable = true
+	if len(reported) == 0 {
+		st.Proved++
+	}
+	p.X.mu.Unlock()
+}
+
+// betweenQuery asks the solver for a schedule in which y falls strictly between w1 and w2.
+func (p *Path) betweenQuery(w1, w2, y accEvent) bool {
+	var sb strings.Builder
+	p.w.rq++
+	rq := fmt.Sprintf("aq%d", p.w.rq)
+	sb.WriteString("(push 1)\n")
+	names := []string{}
+	decl := func(n string) {
+		fmt.Fprintf(&sb, "(declare-const %s Int)\n", n)
+		names = append(names, n)
+	}
+	t1, t2, ty := rq+"_w1", rq+"_w2", rq+"_y"
+	decl(t1)
+	decl(t2)
+	decl(ty)
+	// one acquire/release pair per critical section instance of the writing thread
+	type sec struct{ a, r, lock string }
+	secsA := map[int]sec{}
+	var orderA []int
+	addA := func(cs []csection, t string) {
+		for _, c := range cs {
+			sc, ok := secsA[c.id]
+			if !ok {
+				sc = sec{a: fmt.Sprintf("%s_Aa%d", rq, c.id), r: fmt.Sprintf("%s_Ar%d", rq, c.id), lock: c.lock}
+				decl(sc.a)
+				decl(sc.r)
+				fmt.Fprintf(&sb, "(assert (< %s %s))\n", sc.a, sc.r)
+				secsA[c.id] = sc
+				orderA = append(orderA, c.id)
+			}
+			fmt.Fprintf(&sb, "(assert (and (< %s %s) (< %s %s)))\n", sc.a, t, t, sc.r)
+		}
+	}
+	addA(w1.held, t1)
+	addA(w2.held, t2)
+	// sections of one thread on the same mutex follow each other in the order they were entered (ids grow)
+	for _, i := range orderA {
+		for _, j := range orderA {
+			if i < j && secsA[i].lock == secsA[j].lock {
+				fmt.Fprintf(&sb, "(assert (< %s %s))\n", secsA[i].r, secsA[j].a)
+			}
+		}
+	}
+	var secsB []sec
+	for k, c := range y.held {
+		sc := sec{a: fmt.Sprintf("%s_Ba%d", rq, k), r: fmt.Sprintf("%s_Br%d", rq, k), lock: c.lock}
+		decl(sc.a)
+		decl(sc.r)
+		fmt.Fprintf(&sb, "(assert (and (< %s %s) (< %s %s)))\n", sc.a, ty, ty, sc.r)
+		secsB = append(secsB, sc)
+	}
+	for _, sa := range secsA {
+		for _, sb2 := range secsB {
+			if sa.lock == sb2.lock {
+				fmt.Fprintf(&sb, "(assert (or (< %s %s) (< %s %s)))\n", sa.r, sb2.a, sb2.r, sa.a)
+			}
+		}
+	}
+	sb.WriteString("(assert (distinct " + strings.Join(names, " ") + "))\n")
+	fmt.Fprintf(&sb, "(assert (and (< %s %s) (< %s %s)))\n", t1, ty, ty, t2)
+	res := p.w.s.RawCheck(sb.String())
+	if res == "unknown" {
+		p.X.mu.Lock()
+		p.X.res.Notes["schedule query undecided (treated as not atomic)"]++
 		p.X.mu.Unlock()
 	}
 	return res != "unsat"
